@@ -8,7 +8,7 @@ from checks import lach_common as lc
 
 
 def run(c):
-    ex = lc.run_exhaustive(c, c.pick(["x31_6", "x11_7"], ["x31_8", "x11_8", "x21_8", "x31f_7", "x211_8"]), "order-independence",
+    ex = lc.run_exhaustive(c, c.pick(["x31_6", "x11_7", "x211f_5"], ["x31_8", "x11_8", "x21_8", "x31f_7", "x211f_6"]), "order-independence",
                            orders=c.pick(3, 4))
     c.guard("model_dags_with_blocks", ex["total"]["dags_with_blocks"])
     res = lc.run_profile(c, "c01", c.pick(8, 120), "order-independence")
